@@ -343,7 +343,13 @@ func ColdExport(disk *simdb.Disk, h uint64) (st types.AppState, err error) {
 			err = fmt.Errorf("cold export panic: %v", r)
 		}
 	}()
-	cs, e := state.NewCheckStateAtHeightV3(h, disk.Store("state"))
+	// a chain whose genesis starts at height 1 keeps the state of height h under tree version h+1
+	// (IAVL has no version 0: the genesis state is version 1); the app DB tells which case this is
+	ver := h
+	if ColdAppDB(disk).GetStartHeight() == 0 {
+		ver = h + 1
+	}
+	cs, e := state.NewCheckStateAtHeightV3(ver, disk.Store("state"))
 	if e != nil {
 		return st, e
 	}
